@@ -29,7 +29,9 @@ RULE = ("cases = every template AST within the node/depth bound built by the gen
         "of the extended template as identifiers and as free text, "
         "plus seeded random larger templates; expected output = Tmpl!Render; every case is rendered by the real engine in "
         "6 concretisation rounds (strings per token class, SetVariable/SetVariables/Merge/FromStruct, RenderToDocument/"
-        "RenderTemplateToDocument) and the paragraph texts joined by newline are compared with the concretised expectation; "
+        "RenderTemplateToDocument; each round with the variables / item fields handed over in ascending and in descending "
+        "order when a map of the data has two or more entries, because the library keeps them in Go maps whose iteration "
+        "order follows the insertion order) and the paragraph texts joined by newline are compared with the concretised expectation; "
         "a deviating case is reported under the minimal set of construct classes (Tmpl!Classes) that deviates in the run")
 
 LAWS = ["Inv_Verbatim", "Inv_Opaque", "Inv_Unused", "Inv_AbsentFalse", "Inv_Dual", "Inv_Blocks", "Inv_Names", "Inv_LoopHom",
